@@ -1,6 +1,7 @@
 package scen
 
 import (
+	"bytes"
 	"context"
 	"fmt"
 	"sync"
@@ -102,6 +103,34 @@ func c22Root(p c22p) func() {
 	}
 }
 
+// reorderSections rewrites an engine-written file so that its blocks' filter sections lie in
+// the region in reverse block order (allowed by the format): the filter pass then needs one
+// region read per block instead of one for all.
+func reorderSections(f fixtureFile) (fixtureFile, error) {
+	md := f.md
+	md.DataBlocks = append([]bs.DataBlockMetadata(nil), f.md.DataBlocks...)
+	var out bytes.Buffer
+	out.Write(f.data[:md.BlockFilterRegionOffset])
+	for i := len(md.DataBlocks) - 1; i >= 0; i-- {
+		b := &md.DataBlocks[i]
+		sec := f.data[b.BloomFilterOffset : b.BloomFilterOffset+b.BloomFilterSize]
+		b.BloomFilterOffset = out.Len()
+		out.Write(sec)
+	}
+	if out.Len() != md.BlockFilterRegionOffset+md.BlockFilterRegionSize {
+		return f, fmt.Errorf("region size changed")
+	}
+	if err := bs.WriteFileFooter(&out, &md); err != nil {
+		return f, err
+	}
+	parsed, _, err := bs.ReadFileMetadata(bytes.NewReader(out.Bytes()))
+	if err != nil {
+		return f, err
+	}
+	parsed.BloomFilters = md.BloomFilters
+	return fixtureFile{f.ptr, out.Bytes(), *parsed}, nil
+}
+
 func init() {
 	wide := [][]map[string]any{
 		append(hitRows("w", "x", 330), map[string]any{"id": "miss", "p": "y", "k": "other"}),
@@ -122,10 +151,28 @@ func init() {
 	many = append(many, map[string]any{"id": "miss", "p": "q", "k": "other"})
 	setupMany := buildFixture("manysmall", [][]map[string]any{many})
 	fixtureHits["manysmall"] = 7
+	// "small" with every file's filter sections in reverse block order
+	setupReordered := func() {
+		setupSmall()
+		if fixtures["reordered"] != nil {
+			return
+		}
+		var out []fixtureFile
+		for _, f := range fixtures["small"] {
+			g, err := reorderSections(f)
+			if err != nil {
+				vapi.Fail("fixture reordered: %v", err)
+				return
+			}
+			out = append(out, g)
+		}
+		fixtures["reordered"] = out
+	}
+	fixtureHits["reordered"] = 6
 	Registry["C22"] = func(tier string) []Scenario {
-		ps := []c22p{{1, 2, false, "small"}, {2, 2, false, "small"}, {1, 1, true, "wide"}, {1, 1, true, "manysmall"}, {2, 1, true, "manysmall"}}
+		ps := []c22p{{1, 2, false, "small"}, {2, 2, false, "small"}, {1, 1, true, "wide"}, {1, 1, true, "manysmall"}, {2, 1, true, "manysmall"}, {1, 2, false, "reordered"}}
 		if tier == "thorough" {
-			ps = append(ps, c22p{2, 3, false, "small"}, c22p{1, 3, false, "small"}, c22p{2, 2, true, "wide"}, c22p{1, 2, true, "wide"}, c22p{3, 2, true, "manysmall"}, c22p{2, 2, false, "manysmall"})
+			ps = append(ps, c22p{2, 3, false, "small"}, c22p{1, 3, false, "small"}, c22p{2, 2, true, "wide"}, c22p{1, 2, true, "wide"}, c22p{3, 2, true, "manysmall"}, c22p{2, 2, false, "manysmall"}, c22p{2, 3, false, "reordered"}, c22p{1, 3, false, "reordered"})
 		}
 		var out []Scenario
 		for _, p := range ps {
@@ -138,6 +185,9 @@ func init() {
 			if p.fixture == "manysmall" {
 				s.Setup = setupMany
 				s.Sched = 1
+			}
+			if p.fixture == "reordered" {
+				s.Setup = setupReordered
 			}
 			if tier == "thorough" && p.fixture == "small" && p.queries == 2 {
 				s.DelayBound, s.Sched = false, 1
